@@ -140,6 +140,7 @@ fn apply_tok(m: &mut UserModel<'static>, tok: &str) -> Option<Result<(), String>
         ["rh", s, a, z, w] => m.set_rows_height(u(s)?, i(a)?, i(z)?, i(w)? as f64),
         ["ch", s, a, z, v] => m.set_columns_hidden(u(s)?, i(a)?, i(z)?, b(v)?),
         ["rhid", s, a, z, v] => m.set_rows_hidden(u(s)?, i(a)?, i(z)?, b(v)?),
+        ["mr", s, r, n, d] => m.move_rows_action(u(s)?, i(r)?, i(n)?, i(d)?),
         _ => return None,
     })
 }
@@ -247,7 +248,7 @@ fn gen_cmd(rng: &mut Rng, sheets: &mut i64, depth: &mut i64) -> String {
             }
         }
     };
-    match rng.below(24) {
+    match rng.below(27) {
         0 | 1 | 2 => {
             *depth -= 1;
             "U".into()
@@ -293,9 +294,16 @@ fn gen_cmd(rng: &mut Rng, sheets: &mut i64, depth: &mut i64) -> String {
             let (a, z) = range(rng, 16384);
             format!("ch:{}:{}:{}:{}", sheet(rng, *sheets), a, z, rng.below(2))
         }
-        _ => {
+        23 => {
             let (a, z) = range(rng, 1048576);
             format!("rhid:{}:{}:{}:{}", sheet(rng, *sheets), a, z, rng.below(2))
+        }
+        _ => {
+            // row moves (both directions, landing zones that may contain hidden rows, off-grid targets)
+            let row = *rng.pick(&[1i64, 2, 3, 4, 5, 6, 8, 0, 1048575]);
+            let count = *rng.pick(&[1i64, 1, 2, 3, 0, -1]);
+            let delta = *rng.pick(&[1i64, 2, 3, -1, -2, -3, 0, 4]);
+            format!("mr:{}:{}:{}:{}", sheet(rng, *sheets), row, count, delta)
         }
     }
 }
@@ -320,6 +328,11 @@ pub fn gen_histories(prefix: &str, ctx: &Ctx, sink: &mut dyn FnMut(String)) {
         format!("newsheet newsheet rename:1:{} rename:2:{} U U delsheet:1 U R F U", h("Data"), h("data")),
         format!("newsheet delsheet:0 U U R R rename:0:{} U", h("Sheet2")),
         "cw:0:5:3:10 U R cw:0:5:3:-1".to_string(),
+        // row moves over hidden rows: the recorded delta is the effective one (seeded defect C03)
+        "rh:0:2:2:40 rhid:0:3:3:1 mr:0:2:1:1 U R U".to_string(),
+        "rh:0:6:6:50 rhid:0:4:5:1 mr:0:6:1:-1 F U R".to_string(),
+        "rhid:0:3:4:1 rh:0:1:2:33 mr:0:1:2:2 U U R R".to_string(),
+        "mr:0:1:1:-1 mr:0:0:1:1 mr:0:1048575:1:3 mr:0:2:0:1 mr:0:2:1:0".to_string(),
     ];
     for c in corpus.iter() {
         sink(format!("{prefix} m {c}"));
@@ -346,7 +359,7 @@ macro_rules! model_suite {
         pub fn $fname() -> Suite {
             Suite {
                 name: $sname,
-                rule: "whole histories over the modelled attribute operations (workbook name, timezone, locale, frozen rows/columns, grid lines, tab colour, hide/unhide/rename/new/delete sheet, column widths, row heights, hidden columns/rows; valid and invalid arguments) interleaved with undo/redo/flush, run on the real UserModel + a from_bytes replica fed by apply_external_diffs, and on the Lean model; compared: per command Ok/Err, undo/redo stack depths and queue length (hooks), final modelled state of primary and replica, well-formedness flag; a fixed corpus of the witnesses of the repaired defects first, then seeded random histories (quick 400 x <=30 commands, thorough 6000 x <=80); non-trivial = at least two commands",
+                rule: "whole histories over the modelled attribute operations (workbook name, timezone, locale, frozen rows/columns, grid lines, tab colour, hide/unhide/rename/new/delete sheet, column widths, row heights, hidden columns/rows, row moves with the hidden-row-adjusted delta; valid and invalid arguments) interleaved with undo/redo/flush, run on the real UserModel + a from_bytes replica fed by apply_external_diffs, and on the Lean model; compared: per command Ok/Err, undo/redo stack depths and queue length (hooks), final modelled state of primary and replica, well-formedness flag; a fixed corpus of the witnesses of the repaired defects first, then seeded random histories (quick 400 x <=30 commands, thorough 6000 x <=80); non-trivial = at least two commands",
                 modelled: true,
                 gen: $gname,
                 eval: eval_model,
